@@ -104,3 +104,9 @@ Definition page_result_sel (lib : list tpl) (sel : selection) (pre_expand : bool
                                         else unexpanded_template (n :: args)
                      | _ => [i]
                      end) page.
+
+(* {{#if: cond | a | b}} with plain arguments: a when cond is not blank, else b (an absent argument is empty), trimmed;
+   a newline is put before a result that starts with a list or table marker *)
+Definition if_head : enc := chars s_if ++ [Ch 58].           (* "#if:" *)
+Definition if_result (cond : enc) (more : list enc) : enc :=
+  add_newline (strip_i (match strip_i cond with [] => nth 1 more [] | _ => nth 0 more [] end)).
